@@ -326,7 +326,7 @@ def m_table_get(ip, fr, c, t, args, st):
 
 def stale_entries(ip, st, tid):
     for oid, v in list(st.store.items()):
-        if isinstance(v, tuple) and v[0] == "struct" and v[1] == ip.r.entry and v[2].get("#tid") == tid and oid[0] == "E":
+        if isinstance(v, tuple) and v and v[0] == "struct" and v[1] == ip.r.entry and v[2].get("#tid") == tid and oid[0] == "E":
             f = dict(v[2])
             f["#tid"] = ("stale", tid)
             st.store[oid] = ("struct", v[1], f)
